@@ -1662,21 +1662,10 @@ Section Top.
   Qed.
 
   (* a second application changes nothing *)
-  Definition stable_on (l : ldocl) : Prop :=
-    forall its f, In (LPara its) l -> In (IField f) its ->
-      field_stable c fmt f /\ fmt_lexes fmt (a_ws_field c fmt f).
-  Definition ecmp_invariant_on (l : ldocl) : Prop :=
-    forall its f g, In (LPara its) l -> In (IField f) its -> In (IField g) its ->
-      match ecmp with Some e => e (a_pair fmt f) (a_pair fmt g) = e (field_pair f) (field_pair g) | None => True end.
-  Definition pcmp_invariant_on (l : ldocl) : Prop :=
-    forall a b, In (LPara a) l -> In (LPara b) l ->
-      match pcmp with
-      | Some p => p (spec_para ecmp fmt a) (spec_para ecmp fmt b) = p (flat_map item_pairs a) (flat_map item_pairs b)
-      | None => True
-      end.
+  (* stable_on, ecmp_invariant_on, pcmp_invariant_on: model/WrapSpecInst.v *)
 
-  Theorem a_std_idem l : doc_fields_ok fmt l -> stable_on l ->
-    pair_cmp_consistent ecmp -> para_cmp_consistent pcmp -> ecmp_invariant_on l -> pcmp_invariant_on l ->
+  Theorem a_std_idem l : doc_fields_ok fmt l -> stable_on c fmt l ->
+    pair_cmp_consistent ecmp -> para_cmp_consistent pcmp -> ecmp_invariant_on ecmp fmt l -> pcmp_invariant_on pcmp ecmp fmt l ->
     a_std (a_std l) = a_std l.
   Proof.
     intros Hok Hst Hce Hcp Hie Hip. unfold a_std. apply a_ws_doc_idem; [exact Hcp| |].
@@ -1687,8 +1676,8 @@ Section Top.
       + intros f g Hf Hg. apply (Hie its f g Hi Hf Hg).
   Qed.
 
-  Theorem std_ws_idem l : doc_fields_ok fmt l -> stable_on l ->
-    pair_cmp_consistent ecmp -> para_cmp_consistent pcmp -> ecmp_invariant_on l -> pcmp_invariant_on l ->
+  Theorem std_ws_idem l : doc_fields_ok fmt l -> stable_on c fmt l ->
+    pair_cmp_consistent ecmp -> para_cmp_consistent pcmp -> ecmp_invariant_on ecmp fmt l -> pcmp_invariant_on pcmp ecmp fmt l ->
     std_ws' (ltree_of (a_std l)) = Ok (ltree_of (a_std l)).
   Proof.
     intros Hok Hst Hce Hcp Hie Hip. rewrite std_ws_commute.
